@@ -15,7 +15,11 @@ RULE = ('native grids: linear / log / constant-R (repo create_grid_res) with mid
         'order shuffled. judged iff the sorted native bins have non-decreasing lower and upper edges ("ordered '
         'bins"), positive widths and distinct centres; the rest is the malformed stream. distinct non-trivial = '
         'distinct (binner, native kind, target kind, width modes, ndim, error, shuffled, n-bucket) with a '
-        'non-constant spectrum')
+        'non-constant spectrum. Fixed quotas: every 6th case has integer-dtype inputs (target grid and/or native grid '
+        'and/or spectrum as int64, widths fractional floats); a reuse stream applies ONE FluxBinner / SimpleBinner / '
+        'NativeBinner instance to 2-3 different native grids of equal length in sequence (mid-point and explicit '
+        'widths, 1-D/2-D, errors, bindown and bin_model), each result judged for its own grid and against a fresh '
+        'binner')
 ASSUMPTIONS = ['np.searchsorted(a, v, side="right") on a sorted array = number of elements <= v',
                'argsort = stable insertion sort by key (theorems on order need distinct wavenumbers)',
                'np.histogram(x, edges[, weights]) = per-bin count/sum with bins [e_i, e_i+1) and a closed last bin; '
@@ -167,11 +171,29 @@ def gen_targets(rng, c, w, m):
     return out
 
 
-def gen_case(rng, k, malformed=False):
+INT_SETS = [('target',), ('native',), ('spec',), ('target', 'native', 'spec'), ('target', 'spec'), ('native', 'spec')]
+
+
+def gen_case(rng, k, malformed=False, ints=None, n_fixed=None, nkind=None):
     kinds = MALFORMED_KINDS if malformed else NATIVE_KINDS
-    nkind = kinds[k % len(kinds)]
+    nkind = nkind or kinds[k % len(kinds)]
     n = int(rng.integers(2, 61)) if rng.random() < 0.8 else int(rng.integers(2, 6))
-    c, w = gen_native(rng, nkind, n)
+    if n_fixed is not None:
+        n = n_fixed
+    ints = tuple(ints or ())
+    if 'native' in ints:
+        # integer-valued native grid: integer start and step; mid-point, contiguous or gapped explicit widths
+        step = int(rng.integers(1, 40))
+        c = (int(rng.integers(200, 5000)) + step * np.arange(n)).astype(float)
+        r0 = rng.random()
+        if r0 < 0.4:
+            nkind, w = 'linear', None
+        elif r0 < 0.7:
+            nkind, w = 'linear-w', np.full(n, float(step))
+        else:
+            nkind, w = 'gaps', step * rng.uniform(0.2, 0.95, size=n)
+    else:
+        c, w = gen_native(rng, nkind, n)
     n = len(c)
     scalar_native = False
     if w is not None and nkind == 'linear-w' and rng.random() < 0.5:
@@ -183,6 +205,10 @@ def gen_case(rng, k, malformed=False):
     tc = np.array([t[0] for t in tg])
     tw = np.array([t[1] for t in tg])
     tkinds = [t[2] for t in tg]
+    if 'target' in ints:
+        tc = np.round(tc)           # integer-valued centres; the widths stay fractional floats
+        if rng.random() < 0.3:
+            tw = tw * rng.uniform(0.05, 0.9) / np.maximum(tw, 1e-9)     # widths below 1
     # distinct target centres (argsort ties are outside the model)
     _, first = np.unique(tc, return_index=True)
     keep = np.sort(first)
@@ -203,6 +229,8 @@ def gen_case(rng, k, malformed=False):
         spec = rng.uniform(-1, 1, size=(nspec, n)) * 10 ** rng.uniform(-6, 2)
     else:
         spec = 10 ** rng.uniform(-4, -1) * (1 + 0.3 * rng.standard_normal((nspec, n)))
+    if 'spec' in ints:
+        spec = rng.integers(-50, 51, size=(nspec, n)).astype(float)
     err = None
     if rng.random() < 0.6:
         err = np.abs(rng.standard_normal((nspec, n))) * 10 ** rng.uniform(-6, 0) + 1e-9
@@ -215,8 +243,69 @@ def gen_case(rng, k, malformed=False):
                 spec=spec[:, pn] if nd == 2 else spec[0, pn],
                 err=None if err is None else (err[:, pn] if nd == 2 else err[0, pn]),
                 tc=tc[pt], tw=tw[pt] if tmode == 'array' else (float(tw[0]) if tmode == 'scalar' else None),
-                shuffled=[bool(shuffle_n), bool(shuffle_t)])
+                shuffled=[bool(shuffle_n), bool(shuffle_t)], ints=list(ints))
     return case
+
+
+REUSE_KINDS = ['linear', 'constR', 'log', 'linear-w', 'gaps', 'constR-w', 'log-w', 'overlap-ordered']
+
+
+def gen_reuse_case(rng, k):
+    """one binner, 2-3 different native grids of EQUAL length over the same range, in sequence"""
+    n = int(rng.integers(3, 50))
+    base = gen_case(rng, k, n_fixed=n, nkind=REUSE_KINDS[k % len(REUSE_KINDS)],
+                    ints=INT_SETS[(k // 5) % len(INT_SETS)] if k % 5 == 4 else None)
+    n = len(base['nc'])
+    order = np.argsort(base['nc'])
+    lo0, hi0 = float(np.min(base['nc'])), float(np.max(base['nc']))
+    cases = [base]
+    for j in range(int(rng.integers(1, 3))):
+        kind = REUSE_KINDS[(k + 1 + 3 * j + int(rng.integers(0, 3))) % len(REUSE_KINDS)]
+        c, w = None, None
+        for attempt in range(5):
+            c, w = gen_native(rng, kind, n)
+            if len(c) == n:
+                break
+            kind = 'log' if w is None else 'log-w'
+        if len(c) != n:
+            continue
+        # same range as the first grid, so that widths remembered from it would be plausible but wrong
+        f = (hi0 - lo0) / (c[-1] - c[0])
+        c = lo0 + (c - c[0]) * f
+        w = None if w is None else w * f
+        sub = gen_case(rng, k + j + 1, n_fixed=n, nkind='linear')   # spectra / errors / order of a fresh draw
+        pn = rng.permutation(n) if sub['shuffled'][0] else np.arange(n)
+        nd = sub['nd']
+        sub.update(nkind=kind, nc=c[pn], nw=None if w is None else w[pn], scalar_native=False,
+                   tc=base['tc'], tw=base['tw'], tmode=base['tmode'], tkinds=base['tkinds'],
+                   shuffled=[sub['shuffled'][0], base['shuffled'][1]], ints=[x for x in base['ints'] if x == 'target'])
+        sub['via_bin_model'] = bool(w is None and nd == 1 and sub['err'] is None and rng.random() < 0.5)
+        cases.append(sub)
+    if rng.random() < 0.3:
+        cases.append(dict(base))        # and back to the first grid
+    return dict(reuse=True, cases=cases)
+
+
+def eval_reuse(ctx, c):
+    from taurex.binning import SimpleBinner, NativeBinner
+    cases = c['cases']
+    try:
+        fb = make_binner(cases[0])
+    except Exception as e:
+        ctx.violation('flux-raises:init', 'FluxBinner raised %r' % (e,), c)
+        return
+    for sub in cases:
+        eval_flux(ctx, sub, fb=fb)
+    # the histogram binner and the native binner, one instance each over the same sequence of native grids
+    tc = np.sort(np.asarray(cases[0]['tc'], float))
+    if len(tc) >= 2 and np.all(np.diff(tc) > 0):
+        sb = SimpleBinner(tc)
+        for sub in cases:
+            eval_hist(ctx, dict(hist=True, kind='reuse:' + sub['nkind'], nd=sub['nd'], nc=sub['nc'], spec=sub['spec'],
+                                nb=tc, shuffled=bool(sub['shuffled'][0])), sb=sb)
+    nbin = NativeBinner()
+    for sub in cases:
+        eval_native(ctx, sub, nbin=nbin)
 
 
 # ----------------------------------------------------------------------------------------------- evaluation
@@ -244,23 +333,41 @@ def tmode_tokens(c):
     return [C.N(2)]
 
 
-def run_flux(c):
-    """the real code"""
+def typed(c, name, x):
+    """array as handed to the real code: int64 where the case asks for an integer-dtype input"""
+    x = np.asarray(x, float)
+    if name in (c.get('ints') or ()):
+        xi = x.astype(np.int64)
+        assert np.array_equal(xi, x)
+        return xi
+    return x
+
+
+def make_binner(c):
     from taurex.binning import FluxBinner
     tw = c['tw']
     tw = None if tw is None else (float(tw) if c['tmode'] == 'scalar' else np.asarray(tw, float))
-    fb = FluxBinner(np.asarray(c['tc'], float), tw)
+    return FluxBinner(typed(c, 'target', c['tc']), tw)
+
+
+def run_flux(c, fb=None):
+    """the real code (on a fresh binner, or on the binner `fb` that has already been used on other grids)"""
+    if fb is None:
+        fb = make_binner(c)
     nw = c['nw']
     if nw is not None:
         nw = np.asarray(nw, float)
         if c.get('scalar_native'):
             nw = float(nw[0])
     err = None if c['err'] is None else np.asarray(c['err'], float)
-    out = fb.bindown(np.asarray(c['nc'], float), np.asarray(c['spec'], float), grid_width=nw, error=err)
+    if c.get('via_bin_model') and nw is None and err is None:
+        g, b, e, w = fb.bin_model((typed(c, 'native', c['nc']), typed(c, 'spec', c['spec']), None, None))
+        return fb, (g, b, e, w)
+    out = fb.bindown(typed(c, 'native', c['nc']), typed(c, 'spec', c['spec']), grid_width=nw, error=err)
     return fb, out
 
 
-def eval_flux(ctx, c):
+def eval_flux(ctx, c, fb=None):
     nc = np.asarray(c['nc'], float)
     nw = None if c['nw'] is None else np.asarray(c['nw'], float)
     spec = np.asarray(c['spec'], float)
@@ -270,7 +377,8 @@ def eval_flux(ctx, c):
                  shuffled=c['shuffled'], has_err=err is not None, explicit=nw is not None)
     full = dict(c)
     try:
-        fb, (g, binned, berr, gw) = run_flux(c)
+        reused = fb is not None
+        fb, (g, binned, berr, gw) = run_flux(c, fb)
     except Exception as e:
         ctx.violation('flux-raises:' + c['nkind'], 'FluxBinner raised %r inside the quantified domain' % (e,), full)
         return
@@ -331,6 +439,20 @@ def eval_flux(ctx, c):
     ctx.bucket('error:' + ('yes' if err is not None else 'no'))
     ctx.bucket('shuffled-native:' + str(c['shuffled'][0]))
     ctx.bucket('shuffled-target:' + str(c['shuffled'][1]))
+    for nm in (c.get('ints') or ()):
+        ctx.bucket('int-dtype:' + nm)
+    if reused:
+        ctx.bucket('reused-binner:' + ('judged' if judged else 'unjudged'))
+        if judged:
+            # the same call on a freshly built binner: a binner must not remember earlier native grids
+            _, (g0, b0, e0, w0) = run_flux(c)
+            if not (C.close(np.asarray(g0, float), g, rel=0) and C.close(np.asarray(w0, float), gw, rel=0)
+                    and C.close(as2d(b0), binned2, rel=1e-13, abs_=1e-15 * scale)
+                    and (berr is None or C.close(as2d(e0), berr2, rel=1e-13, abs_=1e-15 * escale))):
+                ctx.violation('reused-binner-differs:' + ('explicit' if nw is not None else 'midpoint'),
+                              'a binner that was used on another native grid before gives a different result than a '
+                              'fresh binner on the same input (state kept between calls)', full,
+                              dict(reused=binned2, fresh=as2d(b0)))
 
     sspec2 = spec2[:, order]
     serr2 = None if err2 is None else err2[:, order]
@@ -464,6 +586,9 @@ def gen_hist_case(rng, k):
         c = rng.uniform(200, 5000) * rng.uniform(1.001, 1.2) ** np.arange(n)
     else:
         c = np.cumsum(10 ** rng.uniform(-1, 1, size=n)) + 300
+    ints = list(INT_SETS[(k // 6) % len(INT_SETS)]) if k % 6 == 5 else []
+    if 'native' in ints:
+        c = (int(rng.integers(200, 5000)) + int(rng.integers(2, 20)) * np.arange(n)).astype(float)
     m = int(rng.integers(2, 9))
     span = c[-1] - c[0]
     tstyle = rng.random()
@@ -482,11 +607,19 @@ def gen_hist_case(rng, k):
     if rng.random() < 0.07:
         spec[...] = 0.37
     pn = rng.permutation(n) if rng.random() < 0.5 else np.arange(n)
+    if ints:
+        # integer-dtype quota: integer-valued native grid / target grid / spectrum
+        if 'target' in ints:
+            nb = np.unique(np.round(nb))
+            if len(nb) < 2:
+                nb = np.array([np.floor(c[0]), np.ceil(c[-1]) + 1.0])
+        if 'spec' in ints:
+            spec = rng.integers(-50, 51, size=spec.shape).astype(float)
     return dict(hist=True, kind=kind, nd=nd, nc=c[pn], spec=spec[:, pn] if nd == 2 else spec[0, pn], nb=nb,
-                shuffled=bool(np.any(pn != np.arange(n))))
+                shuffled=bool(np.any(pn != np.arange(n))), ints=ints)
 
 
-def eval_hist(ctx, c):
+def eval_hist(ctx, c, sb=None):
     from taurex.binning import SimpleBinner
     nc = np.asarray(c['nc'], float)
     spec = np.asarray(c['spec'], float)
@@ -496,8 +629,16 @@ def eval_hist(ctx, c):
     scale = float(np.max(np.abs(spec2)))
     increasing = bool(np.all(np.diff(nb) > 0))
     try:
-        sb = SimpleBinner(nb)
-        g, out, e_, w_ = sb.bindown(nc, spec)
+        reused = sb is not None
+        if sb is None:
+            sb = SimpleBinner(typed(c, 'target', nb))
+        g, out, e_, w_ = sb.bindown(typed(c, 'native', nc), typed(c, 'spec', spec))
+        if reused:
+            ctx.bucket('reused-hist-binner')
+            out_f = SimpleBinner(nb).bindown(nc, spec)[1]
+            if increasing and not C.close(as2d(out_f), as2d(out), rel=1e-13):
+                ctx.violation('reused-hist-binner-differs', 'a SimpleBinner used on another native grid before gives a '
+                              'different result than a fresh one', full, dict(reused=out, fresh=out_f))
     except Exception as e:
         if increasing:
             ctx.violation('hist-raises', 'SimpleBinner raised %r on an increasing target grid' % (e,), full)
@@ -524,6 +665,8 @@ def eval_hist(ctx, c):
              sample=dict(kind=c['kind'], n=len(nc), nb=nb, impl=out2[0][:3], model=mo[0][:3]),
              bucket='hist:' + c['kind'])
     ctx.bucket('hist-ndim:%d' % spec.ndim)
+    for nm in (c.get('ints') or ()):
+        ctx.bucket('hist-int-dtype:' + nm)
     for i in range(spec2.shape[0]):
         ctx.check_close('util.bindown vs histMean', out2[i], mo[i], full, rel=REL, abs_=1e-12 * scale)
     if not C.close(np.asarray(g), nb, rel=0):
@@ -536,13 +679,14 @@ def eval_hist(ctx, c):
                           'between the bin mid-points', full, dict(bin=j, impl=out2[:, j], spec=mean))
 
 
-def eval_native(ctx, c):
+def eval_native(ctx, c, nbin=None):
     from taurex.binning import NativeBinner
     nc = np.asarray(c['nc'], float)
     spec = np.asarray(c['spec'], float)
     err = None if c.get('err') is None else np.asarray(c['err'], float)
     nw = None if c.get('nw') is None else np.asarray(c['nw'], float)
-    g, s, e, w = NativeBinner().bindown(nc, spec, grid_width=nw, error=err)
+    nbin = nbin or NativeBinner()
+    g, s, e, w = nbin.bindown(nc, spec, grid_width=nw, error=err)
     d = ctx.model().call('c05.native', C.L(as2d(spec)[0]))
     ctx.check_close('NativeBinner vs nativeBindown', as2d(s)[0], d.list(), c, rel=0)
     ctx.case(bucket='native-binner')
@@ -550,14 +694,16 @@ def eval_native(ctx, c):
         and (w is nw or np.array_equal(w, nw))
     if not okk:
         ctx.violation('native-not-identity', 'NativeBinner.bindown changed its input', c)
-    bm = NativeBinner().bin_model((nc, spec, None, None))
+    bm = nbin.bin_model((nc, spec, None, None))
     if not (np.array_equal(bm[0], nc) and np.array_equal(bm[1], spec)):
         ctx.violation('native-bin-model-not-identity', 'NativeBinner.bin_model changed the model', c)
 
 
-def eval_edges(ctx, g):
+def eval_edges(ctx, g, as_int=False):
     from taurex.util.util import compute_bin_edges
-    e, w = compute_bin_edges(np.asarray(g, float))
+    e, w = compute_bin_edges(np.asarray(g, float).astype(np.int64) if as_int else np.asarray(g, float))
+    if as_int:
+        ctx.bucket('edges-int-dtype')
     d = ctx.model().call('c05.edges', C.L(g))
     ctx.check_close('compute_bin_edges edges', e, d.list(), dict(g=g), rel=1e-15)
     ctx.check_close('compute_bin_edges widths', w, d.list(), dict(g=g), rel=1e-15)
@@ -575,7 +721,9 @@ def eval_case(ctx, c):
     if c.get('hist'):
         return eval_hist(ctx, c)
     if c.get('edges_only'):
-        return eval_edges(ctx, c['g'])
+        return eval_edges(ctx, c['g'], bool(c.get('as_int')))
+    if c.get('reuse'):
+        return eval_reuse(ctx, c)
     eval_flux(ctx, c)
     if c.get('native_too'):
         eval_native(ctx, c)
@@ -588,12 +736,20 @@ def run(ctx):
         g = np.cumsum(10 ** rng.uniform(-2, 2, size=n)) + rng.uniform(0, 1000)
         if rng.random() < 0.3:
             g = g[::-1].copy()
-        eval_edges(ctx, g)
+        if k % 5 == 4:
+            g = np.unique(np.round(g))[::(-1 if g[0] > g[-1] else 1)]
+            if len(g) < 2:
+                continue
+            eval_edges(ctx, g, as_int=True)
+        else:
+            eval_edges(ctx, g)
     nflux = ctx.n(3300, 50000)
     for k in range(nflux):
-        c = gen_case(rng, k)
+        c = gen_case(rng, k, ints=INT_SETS[(k // 6) % len(INT_SETS)] if k % 6 == 5 else None)
         c['native_too'] = (k % 10 == 0)
         eval_case(ctx, c)
+    for k in range(ctx.n(500, 8000)):
+        eval_case(ctx, gen_reuse_case(rng, k))
     for k in range(ctx.n(300, 4000)):
         eval_case(ctx, gen_case(rng, k, malformed=True))
     for k in range(ctx.n(900, 15000)):
